@@ -57,6 +57,8 @@ type ChunkResult struct {
 	GoMaxProcs  int               `json:"gomaxprocs"`
 	WallS       float64           `json:"wall_s"`
 	Extra       map[string]string `json:"extra,omitempty"`
+	PerProcess  []string          `json:"per_process,omitempty"`
+	PerProcessQ []string          `json:"per_process_what,omitempty"`
 }
 
 // ReplayFile is what a VIOLATION line points to.
@@ -76,6 +78,14 @@ type ReplayFile struct {
 	} `json:"shrink"`
 	RaceReport string `json:"race_report,omitempty"`
 	Warm       int    `json:"warmup_runs"` // preceding runs of the batch executed first in the replay process
+	ChunkFrom  int    `json:"chunk_from"`  // first run index of the worker process the run belonged to
+	// cross-process disagreement (C08): two worker processes, same corpus entry, different pristine results
+	CrossIndex  int    `json:"cross_index,omitempty"`
+	CrossWhat   string `json:"cross_what,omitempty"`
+	CrossChunkA int    `json:"cross_chunk_a,omitempty"`
+	CrossChunkB int    `json:"cross_chunk_b,omitempty"`
+	CrossA      string `json:"cross_value_a,omitempty"`
+	CrossB      string `json:"cross_value_b,omitempty"`
 	Note       string `json:"note"`
 }
 
@@ -90,6 +100,7 @@ type checker struct {
 	mu      sync.Mutex
 	jobSeq  int
 	warm    int
+	chunkFrom int
 }
 
 type jobResult struct {
@@ -159,6 +170,13 @@ func tail(s string, n int) string {
 	return s
 }
 
+type crossDiff struct {
+	Index          int
+	What           string
+	ChunkA, ChunkB int
+	A, B           string
+}
+
 type merged struct {
 	Runs, Nontrivial       int
 	Steps, TaskSteps       int64
@@ -174,6 +192,9 @@ type merged struct {
 	ClockMin, ClockMax     string
 	WorkerWall             float64
 	ChunkHashes            map[int]string
+	PerProcess, PerProcessQ []string
+	PerProcessChunk         int
+	Cross                   map[int]crossDiff
 }
 
 func addMap(dst, src map[string]int64) {
@@ -236,7 +257,7 @@ func cmdCheck(prop, tier string, seed uint64, runsOverride int, keep bool) int {
 		chunk = runs
 	}
 	m := &merged{Faults: map[string]int64{}, Probes: map[string]int64{}, Dropped: map[string]int64{}, Strategies: map[string]int64{},
-		Sigs: map[string]struct{}{}, RaceLogs: map[int]string{}, ChunkHashes: map[int]string{}}
+		Sigs: map[string]struct{}{}, RaceLogs: map[int]string{}, ChunkHashes: map[int]string{}, Cross: map[int]crossDiff{}}
 	type job struct{ from, to int }
 	jobs := make(chan job, 1024)
 	var wg sync.WaitGroup
@@ -298,6 +319,19 @@ func cmdCheck(prop, tier string, seed uint64, runsOverride int, keep bool) int {
 				}
 				m.WorkerWall += r.WallS
 				m.ChunkHashes[j.from] = r.ChunkHash
+				if len(r.PerProcess) > 0 {
+					if m.PerProcess == nil {
+						m.PerProcess, m.PerProcessQ, m.PerProcessChunk = r.PerProcess, r.PerProcessQ, j.from
+					} else {
+						for i := range r.PerProcess {
+							if i < len(m.PerProcess) && r.PerProcess[i] != m.PerProcess[i] {
+								if _, dup := m.Cross[i]; !dup {
+									m.Cross[i] = crossDiff{i, m.PerProcessQ[i], m.PerProcessChunk, j.from, m.PerProcess[i], r.PerProcess[i]}
+								}
+							}
+						}
+					}
+				}
 				mu.Unlock()
 			}
 		}()
@@ -423,12 +457,38 @@ func cmdCheck(prop, tier string, seed uint64, runsOverride int, keep bool) int {
 			continue
 		}
 		reported++
+		c.chunkFrom = (g.first.Run / chunk) * chunk
 		rf := c.shrinkAndWrite(g.first, cls, m.RaceLogs[(g.first.Run/chunk)*chunk], (g.first.Run/chunk)*chunk)
 		line := fmt.Sprintf("VIOLATION property=%s replay=%s", cfg.ID, rf)
 		violLines = append(violLines, line)
 		fmt.Printf("violation class %s (%d run(s)): %s\n", cls, g.count, oneLine(g.first.Detail, 600))
 		fmt.Println(line)
 		exit = 1
+	}
+	// values that every worker process must agree on (C08: each process evaluates the
+	// same corpus once at start, in its own order)
+	if len(m.Cross) > 0 {
+		var idx []int
+		for i := range m.Cross {
+			idx = append(idx, i)
+		}
+		sort.Ints(idx)
+		d := m.Cross[idx[0]]
+		cls := "depends-on-process-history"
+		if kf := known.match(cfg.ID, cls); kf != nil {
+			fmt.Printf("KNOWN-FINDING: property=%s %s\n", cfg.ID, kf.What)
+		} else {
+			rf := ReplayFile{Property: cfg.ID, Scenario: cfg.Scenario, Tier: tier, Opt: cfg.Opt, BatchSeed: seed, Class: cls,
+				CrossIndex: d.Index, CrossWhat: d.What, CrossChunkA: d.ChunkA, CrossChunkB: d.ChunkB, CrossA: d.A, CrossB: d.B,
+				Note: "two worker processes evaluated the same corpus entry (same text, equal data, fresh runner) in pristine processes but after different other entries, and disagree; replay re-executes both processes' baselines"}
+			path := filepath.Join(verifDir, "replays", fmt.Sprintf("%s-%d-cross-process-%d.json", cfg.ID, seed, d.Index))
+			writeJSON(path, rf)
+			fmt.Printf("violation class %s (%d corpus entries): %s: process of chunk %d: %s ; process of chunk %d: %s\n", cls, len(idx), oneLine(d.What, 300), d.ChunkA, oneLine(d.A, 300), d.ChunkB, oneLine(d.B, 300))
+			line := fmt.Sprintf("VIOLATION property=%s replay=%s", cfg.ID, path)
+			violLines = append(violLines, line)
+			fmt.Println(line)
+			exit = 1
+		}
 	}
 	// known findings that were expected but did not fire are only reported, never fatal
 	for _, kf := range known.forProp(cfg.ID) {
